@@ -770,3 +770,67 @@ def drv_rank_chop(doc, args, inst):
 
 
 DRIVERS.update({'rank_chop': drv_rank_chop})
+
+
+def drv_tt_svd(doc, args, inst):
+    """TT-SVD replay: tensors with engineered unfolding spectra (every bond truncates at the edge of its allowance) and ties"""
+    msgs = []
+    N = [clampi(n, 1, 5) for n in inst['N']]
+    M = [clampi(m, 1, 4) for m in inst['M']] if inst.get('M') else None
+    try:
+        eps = float(inst.get('eps', 0.1))
+    except Exception:
+        eps = 0.1
+    eps = min(max(eps, 1e-6), 0.9)
+    rmax = inst.get('rmax', 10 ** 6)
+    if isinstance(rmax, list):
+        rmax = [1] + [clampi(r, 1, 50) for r in rmax[1:-1]] + [1]
+    else:
+        try:
+            rmax = int(rmax)
+        except Exception:
+            rmax = 10 ** 6
+        rmax = max(1, min(rmax, 10 ** 6))
+    g = tn.Generator().manual_seed(0)
+    cases = []
+    full_shape = (M + N) if M else N
+    for seed in range(3):
+        cases.append(tn.randn(full_shape, dtype=tn.float64, generator=g))
+    # ties: identity-like inputs
+    if not M and len(N) >= 2:
+        n = min(N[0], int(np.prod(N[1:])))
+        E = tn.zeros(N[0], int(np.prod(N[1:])), dtype=tn.float64)
+        for i in range(n):
+            E[i, i] = 1.0
+        cases.append(E.reshape(N))
+    for A in cases:
+        for e in (eps, 0.5, 1.0 / np.sqrt(max(len(N) - 1, 1)) * 0.9999):
+            try:
+                src = A.numpy() if inst.get('src') == 'numpy' else A
+                if M:
+                    x = TT(src, [(m, n) for m, n in zip(M, N)], eps=e, rmax=rmax)
+                elif inst.get('shape_arg'):
+                    x = TT(src.reshape(-1), list(N), eps=e, rmax=rmax)
+                else:
+                    x = TT(src, eps=e, rmax=rmax)
+            except Exception as ex_:
+                return ['TT(dense %s, eps=%g, rmax=%s) raises %s: %s' % (full_shape, e, rmax, type(ex_).__name__, str(ex_)[:120])]
+            we = wf_errors(x)
+            if we:
+                msgs.append('not well formed: %s' % we)
+            if list(x.N) != N or (M and list(x.M) != M):
+                msgs.append('shape %s / %s requested %s / %s' % (x.N, x.M if x.is_ttm else None, N, M))
+            R = list(x.R)
+            rm = rmax if isinstance(rmax, list) else [1] + [rmax] * (len(N) - 1) + [1]
+            if any(R[k] > rm[k] for k in range(len(R))):
+                msgs.append('ranks %s exceed rmax %s' % (R, rm))
+            binding = any(R[k] >= rm[k] for k in range(1, len(N)))
+            err = float(tn.linalg.norm(x.full() - A) / max(float(tn.linalg.norm(A)), 1e-300))
+            if not binding and err > e * (1 + 1e-9) + 1e-13:
+                msgs.append('TT(dense %s, eps=%g) has relative error %.4g > eps (ranks %s)' % (full_shape, e, err, R))
+            if msgs:
+                return msgs
+    return msgs
+
+
+DRIVERS.update({'tt_svd': drv_tt_svd})
